@@ -182,6 +182,18 @@ def handleChanHist (args : List Sexp) : String :=
     | _, _ => "bad-args"
   | _ => "bad-args"
 
+/-- `(chanrange cap stopAt item ...)`: the items are in a closed channel of that capacity; the loop's body leaves at the first item equal to `stopAt` -/
+def handleChanRange (args : List Sexp) : String :=
+  match args with
+  | .atom cap :: .atom stopAt :: items =>
+    let its := items.filterMap (fun x => match x with | .atom a => a.toInt? | _ => none)
+    match cap.toNat?, stopAt.toInt? with
+    | some c, some st =>
+      let r := Chan.rangeLoop (fun v => v == st) (its.length + 2) ⟨its, c, true⟩ []
+      s!"seen={r.2} left={r.1.buf}"
+    | _, _ => "bad-args"
+  | _ => "bad-args"
+
 /-- run a pipeline under a pseudo-random schedule (LCG on `seed`) until terminal or out of steps -/
 def pipeSchedule (k : Nat) : Nat → Nat → List Chan.Move
   | 0, _ => []
@@ -340,6 +352,7 @@ def handleOps (cmd : String) (args : List Sexp) : String :=
   | "cont", args => ContDrv.handle args
   | "chanhist", args => handleChanHist args
   | "pipe", args => handlePipe args
+  | "chanrange", args => handleChanRange args
   | "lex", [] => handleLex ""
   | "lex", [.atom h] => handleLex h
   | "prmin", [t] => (match decodePTree t with
